@@ -493,6 +493,12 @@ def run_plan(rep, plan, scenarios, opts, workers=None, canaries=()):
     queue = list(range(len(items)))
     running = {}
     partial = {}
+    peaks = {}
+
+    def peak_slack(k):
+        # the budget of a scenario is stretched by the highest load factor met while it ran (its queries were)
+        peaks[k] = max(peaks.get(k, 1.0), symx_slack())
+        return peaks[k]
     while queue or running:
         while queue and len(running) < workers:
             k = queue.pop(0)
@@ -517,7 +523,7 @@ def run_plan(rep, plan, scenarios, opts, workers=None, canaries=()):
             elif not pr.is_alive():
                 results[k] = RuntimeError("worker exited without a result")
                 done.append(k)
-            elif time.time() - t0 > limit * symx_slack():
+            elif time.time() - t0 > limit * peak_slack(k):
                 pr.kill()
                 results[k] = None
                 if k in partial:
